@@ -346,6 +346,34 @@ theorem fit_tilt_total_unchanged (h1 : (RealLike.ofInt 1 : R) = 1) (s0 s1 : Int)
   unfold fitTiltOpd; rw [fitSubtract_eq h1]
   simp only [tiltRamp, fitRecordXY, Gen.fitRecord]; ring
 
+/-- **The call `fit_tilt()` leaves OPD + ramp of what it recorded unchanged in BOTH of its branches**: where the generated early-return
+test holds (no basis: `shape == ()` / `None`; or a scalar / one-sample OPD) nothing is subtracted and nothing recorded, otherwise
+`fit_tilt_total_unchanged` -/
+theorem fit_tilt_call_total_unchanged (h1 : (RealLike.ofInt 1 : R) = 1) (se sn : Bool) (n s0 s1 : Int) (px0 px1 : R)
+    (mask opd : Int → Int → R) (t : Int → R) (i j : Int) :
+    (fitTiltCall se sn n s0 s1 px0 px1 mask opd t).1 i j +
+      (match (fitTiltCall se sn n s0 s1 px0 px1 mask opd t).2 with
+       | some xy => tiltRamp s0 s1 px0 px1 mask xy.1 xy.2 i j
+       | none => 0) = opd i j := by
+  unfold fitTiltCall
+  by_cases h : Gen.fitTiltSkips (Gen.pttVectorNone se sn) n = true
+  · rw [if_pos h]; simp
+  · rw [if_neg h]; exact fit_tilt_total_unchanged h1 s0 s1 px0 px1 mask opd t i j
+
+/-- **When nothing is fitted**: exactly when the plane has no shape (`()` or `None`: no basis) or its OPD has a single sample; then the
+OPD is handed back as it was -/
+theorem fit_tilt_call_skips_iff (se sn : Bool) (n s0 s1 : Int) (px0 px1 : R) (mask opd : Int → Int → R) (t : Int → R) :
+    ((fitTiltCall se sn n s0 s1 px0 px1 mask opd t).2 = none ↔ (se = true ∨ sn = true ∨ n = 1)) ∧
+    ((fitTiltCall se sn n s0 s1 px0 px1 mask opd t).2 = none → (fitTiltCall se sn n s0 s1 px0 px1 mask opd t).1 = opd) := by
+  unfold fitTiltCall
+  by_cases h : Gen.fitTiltSkips (Gen.pttVectorNone se sn) n = true
+  · rw [if_pos h]
+    refine ⟨⟨fun _ => ?_, fun _ => rfl⟩, fun _ => rfl⟩
+    simpa [Gen.fitTiltSkips, Gen.pttVectorNone, or_assoc] using h
+  · rw [if_neg h]
+    refine ⟨⟨fun h' => (by simp at h'), fun h' => ?_⟩, fun h' => (by simp at h')⟩
+    exact absurd (by simpa [Gen.fitTiltSkips, Gen.pttVectorNone, or_assoc] using h') h
+
 /-- the generated rows subtracted for a segment lie inside that segment's own block of the stacked basis, and skip its
 piston row; the stride handed to `multiply` starts at the segment index and steps by the number of segments -/
 theorem fit_rows_wiring (seg n size : Int) :
